@@ -1,6 +1,7 @@
 import SignaloModel.Proofs.BridgeSinks
 import SignaloModel.Proofs.SinksProofs
 import SignaloModel.Proofs.SinkRunning
+import SignaloModel.Proofs.IntMean
 /-!
 # C11 — Statistics sinks finalise to the batch statistic of everything received
 
@@ -9,6 +10,8 @@ The property theorems for C11: `#check` prints each statement, `#print axioms` i
 -/
 open SignaloModel
 
+#check @SinkModels.mean_exact
+#check @SinkModels.sk_mean_exact
 #check @SinkModels.collect_finalize
 #check @SinkModels.last_finalize
 #check @SinkModels.integrate_finalize
@@ -38,6 +41,8 @@ open SignaloModel
 #check @SinkModels.finalize_empty
 #check @Sinks.winv_step
 
+#print axioms SinkModels.mean_exact
+#print axioms SinkModels.sk_mean_exact
 #print axioms SinkModels.collect_finalize
 #print axioms SinkModels.last_finalize
 #print axioms SinkModels.integrate_finalize
